@@ -102,6 +102,25 @@ def _rules_to_rewrite(concrete, rnd):
     return sorted(out) or ["grundr_bew_zeiten_avg_entgeltp"]
 
 
+def _purity_on_regime_date(date):
+    import gs
+    import hist_worker
+    import popgen
+    import runs
+
+    try:
+        params, functions = gs.fresh_env(date)
+        df = gs.build_population(popgen.rich_core(date, random.Random(3)), date)
+        held = {"data": df, "params": params, "functions": functions}
+        before = hist_worker.digest_obj(held)
+        nodes, _ = runs.nonderived_nodes(date, df, functions=functions)
+        res, _ = gs.compute_all(df, date, targets=nodes, params=params, functions=functions, rounding=True)
+        after = hist_worker.digest_obj(held)
+        return {"key": f"purity@{date}", "digest": hist_worker.result_digest(res), "before": before, "after": after}
+    except Exception:  # noqa: BLE001
+        return None
+
+
 def run(tier):
     chk = Check("C14", tier, LEVEL)
     rnd = random.Random(chk.seed * 65537 + 14)
@@ -174,7 +193,7 @@ def run(tier):
     # target sets that are computable at both dates: T1 the tax targets, T2 contributions and transfers
     both = [set(gs.env(d)[1]) for d in concrete["dates"].values()]
     avail = both[0] & both[1]
-    concrete["targets"]["T1"] = [t for t in ["eink_st_y_sn", "soli_st_y_sn", "kindergeld_m", "zu_verst_eink_y_sn"] if t in avail]
+    concrete["targets"]["T1"] = [t for t in ["eink_st_y_sn", "soli_st_y_sn", "kindergeld_m", "zu_verst_eink_y_sn"] if t in avail] + ["anz_kinder_hh", "anz_kinder_fg"]   # + built-in aggregates (T2 redefines one for its own call)
     concrete["targets"]["T2"] = [t for t in ["sozialv_beitr_arbeitnehmer_m", "ges_rentenv_beitr_arbeitnehmer_m", "arbeitsl_geld_m", "ges_rente_m", "kindergeld_m"] if t in avail]
     concrete["rules"]["f1"] = _rules_to_rewrite(concrete, rnd)
     chk.notes["rewritten_rules"] = concrete["rules"]["f1"]
@@ -192,6 +211,13 @@ def run(tier):
         e = evs[-1]
         events.append({"k": "ref", "key": e["key"], "digest": e["digest"] if not e["exc"] else "EXC:" + e["exc"]})
         events.append({"k": "call", "tid": -1, "pos": e["pos"], "key": e["key"], "digest": e["digest"], "exc": e["exc"], "before": e["before"], "after": e["after"]})
+    # ---- "simulating never modifies the caller's ... parameter dictionary": on every regime date (each dated rule version in
+    #      force once) a fresh environment is digested, all nodes are computed on the fixed rich population, and it is digested again
+    for pe in pool_map(_purity_on_regime_date, [d_ for d_ in gs.regime_dates("2009-01-01", "2025-12-31")]):
+        if pe:
+            events.append({"k": "ref", "key": pe["key"], "digest": pe["digest"]})
+            events.append({"k": "call", "tid": -2, "pos": 1, "key": pe["key"], "digest": pe["digest"], "exc": "", "before": pe["before"], "after": pe["after"]})
+            keys[pe["key"]] = {"date": pe["key"], "reforms": [], "pop": "rich-core", "targets": "all", "rounding": True}
     owners = [None] * len(events)
     for tid, (evs, h) in enumerate(zip(outs[: len(jobs)], hists)):
         for e in evs:
